@@ -119,3 +119,8 @@ def survivors(C, s):
             pass
     return out
 
+
+class PlainStr(str):
+    """a str subclass that adds and overrides nothing (what HTML/XML libraries, numpy, markupsafe ... hand out): a Python str value"""
+    __slots__ = ()
+
